@@ -244,6 +244,9 @@ character plus the zero-width characters that follow it; zero-width characters a
 group of their own) and *limits*.  `specRun` is the executable specification of counting: advance by
 whole graphemes while the next one fits, report the error iff the scan gets as far as the error. -/
 
+/-- A continuation byte `10xxxxxx`. -/
+def isContByte (b : Nat) : Bool := decide (0x80 ≤ b) && decide (b < 0xc0)
+
 /-- One decoded character: the bytes it occupies in the input, its code point, its column width. -/
 structure Ch where
   n  : Nat
@@ -355,6 +358,66 @@ def scan (mem : Mem) : Nat → Nat → Option Nat → Option (List Ch × Tail)
       | none => none
       | some (cs, t) => some (⟨n, cp, w⟩ :: cs, t)
 
+/-- Total encoded length of some characters. -/
+def bytesOf : List Ch → Nat
+  | [] => 0
+  | c :: cs => c.n + bytesOf cs
+
+/-- C0 control, DEL or C1 control. -/
+def IsControl (cp : Nat) : Prop := cp < 0x20 ∨ (0x7f ≤ cp ∧ cp < 0xa0)
+
+instance (cp : Nat) : Decidable (IsControl cp) := by unfold IsControl; exact inferInstance
+
+/-- The value a complete `n`-byte sequence at `p` encodes (arithmetic reading of the payload bits). -/
+def seqValue (mem : Mem) (p n : Nat) : Nat :=
+  match n with
+  | 2 => (mem p).toNat % 32 * 64 + (mem (p + 1)).toNat % 64
+  | 3 => ((mem p).toNat % 16 * 64 + (mem (p + 1)).toNat % 64) * 64 + (mem (p + 2)).toNat % 64
+  | 4 => (((mem p).toNat % 8 * 64 + (mem (p + 1)).toNat % 64) * 64 + (mem (p + 2)).toNat % 64) * 64
+           + (mem (p + 3)).toNat % 64
+  | _ => (mem p).toNat
+
+/-- What makes the counting functions return the error value at offset `p` (with `len` left), declaratively:
+    `p` is inside the input (`len ≠ 0`, not the terminator) and there is
+    * a C0 control or DEL byte, or
+    * an invalid lead byte (`0x80…0xBF`: C1 or continuation; `0xF8…0xFF`), or
+    * a sequence cut short by the length or by the terminator ("truncated"), or
+    * a complete sequence that encodes a C0/C1 control or DEL. -/
+def ErrAt (mem : Mem) (p : Nat) (len : Option Nat) : Prop :=
+  len ≠ some 0 ∧ (mem p).toNat ≠ 0 ∧
+  (((mem p).toNat < 0x80 ∧ IsControl (mem p).toNat) ∨
+   (0x80 ≤ (mem p).toNat ∧ leadLen (mem p).toNat = 0) ∨
+   (leadLen (mem p).toNat ≠ 0 ∧
+     (lenLt len (leadLen (mem p).toNat) = true ∨
+      ∃ i, 1 ≤ i ∧ i < leadLen (mem p).toNat ∧ (mem (p + i)).toNat = 0)) ∨
+   (leadLen (mem p).toNat ≠ 0 ∧ lenLt len (leadLen (mem p).toNat) = false ∧
+     (∀ i, 1 ≤ i → i < leadLen (mem p).toNat → (mem (p + i)).toNat ≠ 0) ∧
+     IsControl (seqValue mem p (leadLen (mem p).toNat))))
+
+/-- The trigger of the known finding: a complete-looking sequence at `p` one of whose continuation
+    positions holds a byte that is neither NUL nor a continuation byte (`0x80…0xBF`). -/
+def badCont (mem : Mem) (p : Nat) (len : Option Nat) : Bool :=
+  decide (len ≠ some 0) && decide ((mem p).toNat ≠ 0) && decide (leadLen (mem p).toNat ≠ 0) &&
+  !lenLt len (leadLen (mem p).toNat) &&
+  (List.range (leadLen (mem p).toNat)).any fun i =>
+    decide (1 ≤ i) && decide ((mem (p + i)).toNat ≠ 0) && !isContByte (mem (p + i)).toNat
+
+/-- `stepAt` as the property wants it: a sequence with a bad continuation byte is a truncated sequence. -/
+def stepStrict (mem : Mem) (str : Nat) (len : Option Nat) : Step :=
+  if badCont mem str len then .err (str + 1) else stepAt mem str len
+
+/-- `scan` with the strict reading of "truncated sequence". -/
+def scanStrict (mem : Mem) : Nat → Nat → Option Nat → Option (List Ch × Tail)
+  | 0, _, _ => none
+  | fuel + 1, str, len =>
+    match stepStrict mem str len with
+    | .stop _ => some ([], .eof)
+    | .err _ => some ([], .err)
+    | .ch n cp w _ =>
+      match scanStrict mem fuel (str + n) (lenDec len n) with
+      | none => none
+      | some (cs, t) => some (⟨n, cp, w⟩ :: cs, t)
+
 /-- `nul` is the first NUL byte at or after offset `str`. -/
 def FirstNul (mem : Mem) (str nul : Nat) : Prop :=
   str ≤ nul ∧ (mem nul).toNat = 0 ∧ ∀ i, str ≤ i → i < nul → (mem i).toNat ≠ 0
@@ -364,7 +427,7 @@ def memOfBytes (l : List Nat) : Mem := fun i => UInt8.ofNat (l.getD i 0)
 
 /-! #### Reference decoder of the runtime oracle (strict about continuation bytes) -/
 
-def isCont (b : Nat) : Bool := decide (0x80 ≤ b) && decide (b < 0xc0)
+def isCont (b : Nat) : Bool := isContByte b
 
 inductive RefStep where
   | eof
